@@ -400,6 +400,8 @@ func checkSharedLocks(c *Ctx, res *report.Result) {
 	checkObserverIndexGuard(c, res, "O20.9")
 	res.RuleDoc["O20.11"] = "the +1 stream report is all-or-nothing: every function that can end up in adminServiceProxyServer.reportStreamValue (followed from the constructor through its callers' arguments) performs no counting effect (gauge / atomic Inc, Dec, Add, Sub) before an instruction that may panic, and the handler's own gauge Inc is followed at once by its deferred Dec - the deferred -1 is registered only after the +1 returned, so a reporter that counts and then panics (the observer rejects huge ids that way) corrupts the count for every later stream"
 	checkReportAllOrNothing(c, res, "O20.11")
+	res.RuleDoc["O20.16"] = "negative ids cannot index anything: in package proxy every slice / array / string index that is the int conversion of a signed 32-bit id (a ShardID / ClusterID field, an int32 parameter) is dominated by a test that excludes negative values - `int(id) < len(table)` alone holds for every negative id, and in routing mode the first use is on a worker goroutine that nothing recovers"
+	checkSignedIndexLowerBound(c, res, "O20.16", 1)
 	res.RuleDoc["O20.15"] = "an intra-proxy stream-open is served or rejected, never parked: no return of intraProxyStreamSender.Run is reachable without recvAck(latch) (or a Shutdown of the latch), and recvAck registers its deferred Shutdown in its entry block - streamIntraProxyRouting waits on that latch only, so a refusal in front of the ack loop leaves the handler, its goroutine and its +1 in the observer behind for ever"
 	checkIntraSenderRunTripsLatch(c, res, "O20.15")
 	res.RuleDoc["O20.14"] = "ids of any printed length cannot crash the membership goroutine: NodeMeta returns the marshalled node state only on the side of a comparison of its own length with the limit on which len(data) <= limit - the shard keys in it are the ids from stream-open metadata, memberlist panics on an oversized meta, and the UpdateNode goroutine that RegisterShard / UnregisterShard start is outside every CapturePanic"
